@@ -21,7 +21,8 @@ RULE = ("Hypothesis draws a large structured operator (n in 1024..1300, so that 
         "bytes of the leaves + dense bytes of every maximal sub-block on which the function has no structural rule) + 256 KiB. "
         "A control measurement of A.to_dense() must register ~n^2*itemsize, otherwise the run is a harness error. Non-trivial: a "
         "linear-algebra entry point (not a bare product), a nested structure, or the algorithm argument omitted. A positive "
-        "multiple of a PSD Kronecker operator is also called with Cholesky / Eigh (it inherits the declaration).")
+        "multiple of a PSD Kronecker operator is also called with Cholesky / Eigh (it inherits the declaration)."
+        " Further: D K D declared SelfAdjoint under pow(., -1) with Eigh / Eig.")
 ASSUMPTIONS = [
     "tracemalloc sees NumPy buffer allocations (it does: NumPy registers them); memory inside LAPACK work arrays is not seen",
     "calibration on the pinned tree: factor-wise paths peak at 0.1-7 units, densifying paths at >= 350 units, so the factor 16 has a wide margin on both sides",
